@@ -74,7 +74,9 @@ TEXTS = {
         'level': ('Theorem (all models, recipes, matchers, stores, sample indices): one calibration sample changes a '
                   "tensor's entry at most once and then by exactly that sample's min/max of that tensor, regardless of "
                   'how many selected ops touch it or how many virtual I/O operators have accumulated; first sample '
-                  'initialises; recorded entries never become empty. Model (Calibrator + init/collect functions, '
+                  'initialises; recorded entries never become empty; the result holds entries ONLY for names of the '
+                  'previous result and for present operands of operators the recipe selects (no absent operand, no '
+                  'unselected operator). Model (Calibrator + init/collect functions, '
                   'statistics as terms) tied to /repo by correspondence K with BITWISE comparison of the moving '
                   "average evaluated from the check's own interpreter samples, incl. chained multi-signature runs; "
                   'direct oracles for exactness, resumability (random splits), previous-result immutability, '
